@@ -346,3 +346,229 @@ Proof.
     - unfold ca. rewrite Ed. reflexivity. }
   fold a0 rest d'. unfold D' in Hfin. destruct rest as [|y ys]; cbn [fst]; apply Hfin; reflexivity.
 Qed.
+
+(* ------------------------------------------------------------ drop / purges *)
+
+Definition dg (t : table) (k : dropkind) (addr : N) (n : N) (d : dest) : option dest :=
+  fst (fst (drop_dest (t_flags t) k addr n d)).
+
+(* (remaining entries, removed entries) of one destination *)
+Definition dpart (t : table) (k : dropkind) (addr : N) (nd : N * dest) : list entry * list entry :=
+  (match dg t k addr (fst nd) (snd nd) with Some d' => d_entries d' | None => [] end,
+   snd (drop_dest (t_flags t) k addr (fst nd) (snd nd))).
+
+Lemma drop_op_stats t k addr ctr :
+  let res := fold_left (drop_account addr) (map (dpart t k addr) (t_dests t))
+                       (fst (stats_of t addr), snd (stats_of t addr), false) in
+  t_stats (fst (drop_op t k addr ctr))
+  = match k with
+    | DKAll => aremove addr (t_stats t)
+    | _ => match alookup addr (t_stats t) with
+           | Some _ => aset addr (fst (fst res), snd (fst res)) (t_stats t)
+           | None => t_stats t
+           end
+    end
+  /\ t_bad (fst (drop_op t k addr ctr))
+     = t_bad t || match k with
+                  | DKAll => false
+                  | _ => match alookup addr (t_stats t) with Some _ => snd res | None => false end
+                  end.
+Proof.
+  cbv zeta. unfold drop_op. cbv zeta. rewrite map_map. unfold dpart, dg. cbn [fst snd].
+  destruct (stats_of t addr) as [rcv acc]. cbn [fst snd].
+  destruct (fold_left _ _ _) as [[rcv' acc'] bad']. cbn [fst snd t_stats t_bad].
+  split; reflexivity.
+Qed.
+
+Lemma drop_sel_from fl k addr e : drop_sel fl k addr e = true -> from_addr addr e = true.
+Proof. unfold drop_sel. intro H. apply andb_true_iff in H. tauto. Qed.
+
+Lemma dpart_cases t k addr n d :
+  let sel := drop_sel (t_flags t) k addr in
+  let rest := filter (fun e => negb (sel e)) (d_entries d) in
+  (existsb sel (d_entries d) = false /\ dg t k addr n d = Some d /\ dpart t k addr (n, d) = (d_entries d, []))
+  \/ (existsb sel (d_entries d) = true
+      /\ dpart t k addr (n, d) = (rest, filter sel (d_entries d))
+      /\ forall g, g (with_entries d [] (d_next_pid d)) = 0 ->
+                   gopt g (dg t k addr n d) = g (with_entries d rest (d_next_pid d))).
+Proof.
+  cbv zeta. unfold dpart, dg. cbn [fst snd].
+  destruct (drop_dest_cases (t_flags t) k addr n d) as [[Hex E]|(Hex & E1 & E2 & _)]; cbv zeta in *.
+  - left. rewrite E. cbn [fst snd]. split; [exact Hex|]. split; reflexivity.
+  - right. split; [exact Hex|]. rewrite E1, E2.
+    destruct (filter (fun e => negb (drop_sel (t_flags t) k addr e)) (d_entries d)) as [|y ys] eqn:Er.
+    + split; [reflexivity|]. intros g Hg. cbn [gopt]. symmetry. exact Hg.
+    + split; [reflexivity|]. intros g _. reflexivity.
+Qed.
+
+Lemma unf_fold (gone : list entry) (r0 acc : N) :
+  N.of_nat (length (filter (fun e => negb (e_filtered e)) gone)) <= acc ->
+  fold_left (fun '((r0, a, b) : N * N * bool) (e : entry) => if e_filtered e then (r0, a, b)
+                                  else let '(a', b') := dec_stat a in (r0, a', b || b'))
+            gone (r0, acc, false)
+  = (r0, acc - N.of_nat (length (filter (fun e => negb (e_filtered e)) gone)), false).
+Proof.
+  revert acc. induction gone as [|e r IH]; intros acc Hle.
+  - cbn. f_equal. f_equal. lia.
+  - cbn [fold_left filter] in Hle |- *. destruct (e_filtered e) eqn:Fe; cbn [negb] in Hle |- *.
+    + apply IH, Hle.
+    + cbn [length] in Hle |- *. rewrite dec_stat_pos by lia. cbn [orb]. rewrite IH by lia.
+      f_equal. f_equal. lia.
+Qed.
+
+Lemma hal_all_from a l :
+  (forall e, In e l -> from_addr a e = true) ->
+  hal a l = N.of_nat (length (filter (fun e => negb (e_filtered e)) l)).
+Proof.
+  intro H. unfold hal. f_equal. f_equal. induction l as [|e r IH]; cbn; [reflexivity|].
+  unfold unf at 1. rewrite (H e (or_introl eq_refl)). cbn [andb].
+  rewrite IH by (intros x Hx; apply H; right; exact Hx). reflexivity.
+Qed.
+
+Lemma drop_account_sel addr x y rest gone :
+  gone <> [] -> 1 <= x -> N.of_nat (length (filter (fun e => negb (e_filtered e)) gone)) <= y ->
+  drop_account addr (x, y, false) (rest, gone)
+  = (if existsb (from_addr addr) rest then x else x - 1,
+     y - N.of_nat (length (filter (fun e => negb (e_filtered e)) gone)), false).
+Proof.
+  intros Hne Hx Hy. unfold drop_account. destruct gone as [|g0 gs]; [contradiction|].
+  destruct (existsb (from_addr addr) rest).
+  - cbn [orb]. apply unf_fold, Hy.
+  - rewrite dec_stat_pos by exact Hx. cbn [orb]. apply unf_fold, Hy.
+Qed.
+
+Lemma hrl_filter_le a q l : hrl a (filter q l) <= hrl a l.
+Proof.
+  unfold hrl. destruct (existsb (from_addr a) (filter q l)) eqn:E; [|destruct (existsb _ l); lia].
+  apply existsb_exists in E as (x & Hx & Fx). apply filter_In in Hx as [Hx _].
+  assert (H : existsb (from_addr a) l = true) by (apply existsb_exists; exists x; split; assumption).
+  rewrite H. lia.
+Qed.
+
+Lemma hal_filter_le a q l : hal a (filter q l) <= hal a l.
+Proof. rewrite (hal_split a q l). lia. Qed.
+
+Section Drop.
+Variables (t : table) (k : dropkind) (addr : N).
+Let sel := drop_sel (t_flags t) k addr.
+
+Lemma drop_fold ds p q :
+  fold_left (drop_account addr) (map (dpart t k addr) ds) (sumd (hr addr) ds + p, sumd (ha addr) ds + q, false)
+  = (sumN (fun nd => gopt (hr addr) (dg t k addr (fst nd) (snd nd))) ds + p,
+     sumN (fun nd => gopt (ha addr) (dg t k addr (fst nd) (snd nd))) ds + q, false).
+Proof.
+  revert p q. induction ds as [|[n d] r IH]; intros p q; cbn [map fold_left]; [reflexivity|].
+  unfold sumd. cbn [sumN fst snd]. fold (sumd (hr addr) r) (sumd (ha addr) r).
+  destruct (dpart_cases t k addr n d) as [(Hex & Eg & Ep)|(Hex & Ep & Eg)]; cbv zeta in *; rewrite Ep.
+  - rewrite Eg. cbn [gopt]. unfold drop_account at 2.
+    replace (hr addr d + sumd (hr addr) r + p) with (sumd (hr addr) r + (hr addr d + p)) by lia.
+    replace (ha addr d + sumd (ha addr) r + q) with (sumd (ha addr) r + (ha addr d + q)) by lia.
+    rewrite IH. apply f_equal2; [apply f_equal2|reflexivity]; lia.
+  - fold sel in Hex, Ep, Eg |- *. set (rest := filter (fun e => negb (sel e)) (d_entries d)) in *.
+    set (gone := filter sel (d_entries d)) in *.
+    assert (Hgone : forall e, In e gone -> from_addr addr e = true).
+    { intros e He. apply filter_In in He as [_ He]. apply (drop_sel_from _ _ _ _ He). }
+    assert (Hne : gone <> []).
+    { apply existsb_exists in Hex as (x & Hx & Sx). intro E.
+      assert (In x gone) by (apply filter_In; split; assumption). rewrite E in H. destruct H. }
+    assert (Hr1 : hr addr d = 1).
+    { apply existsb_exists in Hex as (x & Hx & Sx). apply (hrl_one_in addr _ x Hx). apply (drop_sel_from _ _ _ _ Sx). }
+    assert (Ha1 : ha addr d = N.of_nat (length (filter (fun e => negb (e_filtered e)) gone)) + hal addr rest).
+    { unfold ha. rewrite (hal_split addr sel (d_entries d)). fold gone rest. rewrite (hal_all_from addr gone Hgone). reflexivity. }
+    rewrite drop_account_sel; [|exact Hne|lia|lia].
+    rewrite (Eg (hr addr) eq_refl), (Eg (ha addr) eq_refl).
+    change (hr addr (with_entries d rest (d_next_pid d))) with (hrl addr rest).
+    change (ha addr (with_entries d rest (d_next_pid d))) with (hal addr rest).
+    match goal with |- fold_left _ _ (?x, ?y, false) = _ =>
+      replace x with (sumd (hr addr) r + (hrl addr rest + p));
+      [replace y with (sumd (ha addr) r + (hal addr rest + q)) by lia|]
+    end.
+    + rewrite IH. apply f_equal2; [apply f_equal2|reflexivity]; lia.
+    + unfold hrl at 1. destruct (existsb (from_addr addr) rest); lia.
+Qed.
+
+Lemma dg_other x n d : x <> addr -> gopt (hr x) (dg t k addr n d) = hr x d /\ gopt (ha x) (dg t k addr n d) = ha x d.
+Proof.
+  intro Hne. destruct (dpart_cases t k addr n d) as [(_ & Eg & _)|(_ & _ & Eg)]; cbv zeta in *.
+  - rewrite Eg. split; reflexivity.
+  - rewrite (Eg (hr x) eq_refl), (Eg (ha x) eq_refl). unfold hr, ha. cbn [d_entries with_entries].
+    assert (Ho : forall e, In e (d_entries d) -> negb (drop_sel (t_flags t) k addr e) = false -> from_addr x e = false).
+    { intros e _ He. apply negb_false_iff in He. apply (from_addr_other x addr e Hne (drop_sel_from _ _ _ _ He)). }
+    split; [apply hrl_filter_other, Ho|apply hal_filter_other, Ho].
+Qed.
+
+Lemma dg_le x n d : gopt (hr x) (dg t k addr n d) <= hr x d /\ gopt (ha x) (dg t k addr n d) <= ha x d.
+Proof.
+  destruct (dpart_cases t k addr n d) as [(_ & Eg & _)|(_ & _ & Eg)]; cbv zeta in *.
+  - rewrite Eg. cbn [gopt]. split; lia.
+  - rewrite (Eg (hr x) eq_refl), (Eg (ha x) eq_refl). unfold hr, ha. cbn [d_entries with_entries].
+    split; [apply hrl_filter_le|apply hal_filter_le].
+Qed.
+
+Lemma sumN_le {A} (g h : A -> N) l : (forall x, In x l -> g x <= h x) -> sumN g l <= sumN h l.
+Proof.
+  induction l as [|a r IH]; cbn; intro H; [lia|].
+  specialize (H a (or_introl eq_refl)) as Ha. assert (sumN g r <= sumN h r) by (apply IH; intros x Hx; apply H; right; exact Hx). lia.
+Qed.
+
+End Drop.
+
+Lemma invS_drop t k addr ctr : invS t -> invS (fst (drop_op t k addr ctr)).
+Proof.
+  intros [Hst Hbad]. destruct (drop_op_dests t k addr ctr) as [Ed _].
+  destruct (drop_op_stats t k addr ctr) as [Es Eb]. cbv zeta in Es, Eb.
+  set (t' := fst (drop_op t k addr ctr)) in *.
+  assert (Ecr : forall x, cr x t' = sumN (fun nd => gopt (hr x) (dg t k addr (fst nd) (snd nd))) (t_dests t)).
+  { intro x. unfold cr. rewrite Ed. apply sumd_fm. }
+  assert (Eca : forall x, ca x t' = sumN (fun nd => gopt (ha x) (dg t k addr (fst nd) (snd nd))) (t_dests t)).
+  { intro x. unfold ca. rewrite Ed. apply sumd_fm. }
+  assert (Hother : forall x, x <> addr -> cr x t' = cr x t /\ ca x t' = ca x t).
+  { intros x Hne. rewrite Ecr, Eca. unfold cr, ca, sumd.
+    split; apply sumN_ext; intros [n d] _; cbn [fst snd]; apply (dg_other t k addr x n d Hne). }
+  (* the fold computes the recount of what is left *)
+  pose proof (drop_fold t k addr (t_dests t) 0 0) as Hfold. rewrite !N.add_0_r in Hfold.
+  fold (cr addr t) (ca addr t) in Hfold. rewrite <- Ecr, <- Eca in Hfold.
+  rewrite (Hst addr) in Es, Eb. cbn [fst snd] in Es, Eb. rewrite Hfold in Es, Eb. cbn [fst snd] in Es, Eb.
+  assert (Hle : cr addr t' <= cr addr t /\ ca addr t' <= ca addr t).
+  { rewrite Ecr, Eca. unfold cr, ca, sumd. split; apply sumN_le; intros [n d] _; cbn [fst snd]; apply dg_le. }
+  assert (Hkeep : forall x, x <> addr -> stats_of t' x = (cr x t', ca x t') ->  True) by (intros; exact Logic.I).
+  clear Hkeep.
+  assert (Hgen : (match k with DKAll => False | _ => True end) -> invS t').
+  { intro Hk. destruct (alookup addr (t_stats t)) as [s0|] eqn:Hlk.
+    - apply (invS_update t t' addr (cr addr t') (ca addr t')); [| | exact Hother|reflexivity|reflexivity|split; assumption].
+      + destruct k; [contradiction| | |]; exact Es.
+      + rewrite Eb, Hbad. destruct k; reflexivity.
+    - assert (Hz : stats_of t addr = (0, 0)) by (unfold stats_of; rewrite Hlk; reflexivity).
+      rewrite (Hst addr) in Hz. injection Hz as Hz1 Hz2.
+      assert (Es' : t_stats t' = t_stats t) by (destruct k; [contradiction| | |]; exact Es).
+      split.
+      + intro x. unfold stats_of. rewrite Es'. fold (stats_of t x). rewrite (Hst x).
+        destruct (N.eq_dec x addr) as [->|Hne]; [f_equal; lia|]. destruct (Hother x Hne) as [-> ->]. reflexivity.
+      + rewrite Eb, Hbad. destruct k; reflexivity. }
+  destruct k; try (apply Hgen; exact Logic.I).
+  (* Table::drop: the peer's statistics are forgotten and all its paths go *)
+  split; [|rewrite Eb, Hbad; reflexivity].
+  intro x. unfold stats_of. rewrite Es, alookup_aremove. destruct (x =? addr) eqn:Ex.
+  - apply N.eqb_eq in Ex. subst x. rewrite Ecr, Eca.
+    assert (Hz : forall n d, gopt (hr addr) (dg t DKAll addr n d) = 0 /\ gopt (ha addr) (dg t DKAll addr n d) = 0).
+    { intros n d. destruct (dpart_cases t DKAll addr n d) as [(Hex & Eg & _)|(_ & _ & Eg)]; cbv zeta in *.
+      - rewrite Eg. cbn [gopt]. unfold drop_sel in Hex.
+        assert (Hex' : existsb (from_addr addr) (d_entries d) = false).
+        { rewrite <- Hex. clear. induction (d_entries d) as [|e r IH]; cbn; [reflexivity|]. rewrite IH, andb_true_r. reflexivity. }
+        assert (H0 : hr addr d = 0) by (unfold hr, hrl; rewrite Hex'; reflexivity).
+        split; [exact H0|apply hrl_zero_hal, H0].
+      - rewrite (Eg (hr addr) eq_refl), (Eg (ha addr) eq_refl). unfold hr, ha. cbn [d_entries with_entries].
+        assert (H0 : hrl addr (filter (fun e => negb (drop_sel (t_flags t) DKAll addr e)) (d_entries d)) = 0).
+        { unfold hrl. destruct (existsb _ _) eqn:E; [|reflexivity]. exfalso.
+          apply existsb_exists in E as (x & Hx & Fx). apply filter_In in Hx as [_ Hx].
+          unfold drop_sel in Hx. rewrite Fx in Hx. discriminate. }
+        split; [exact H0|apply hrl_zero_hal, H0]. }
+    f_equal.
+    + symmetry. transitivity (sumN (fun _ : N * dest => 0) (t_dests t)).
+      * apply sumN_ext. intros [n d] _. apply Hz.
+      * clear. induction (t_dests t) as [|a r IH]; cbn; [reflexivity|]. rewrite IH. reflexivity.
+    + symmetry. transitivity (sumN (fun _ : N * dest => 0) (t_dests t)).
+      * apply sumN_ext. intros [n d] _. apply Hz.
+      * clear. induction (t_dests t) as [|a r IH]; cbn; [reflexivity|]. rewrite IH. reflexivity.
+  - apply N.eqb_neq in Ex. fold (stats_of t x). rewrite (Hst x). destruct (Hother x Ex) as [-> ->]. reflexivity.
+Qed.
